@@ -32,7 +32,7 @@ ANCHORS = ['BitStore.tobytes', 'Bits.tobytes', 'Bits.__bytes__', 'Bits._getbytes
 REQUIRED_OPS = ['tobytes', 'bytes()', '.bytes', 'tofile', 'tofile:failing-sink', 'Array.tobytes', 'Array.tofile',
                 'read:bytes=', 'read:BytesIO', 'read:handle', 'read:filename', 'Array.fromfile',
                 'tofile:chunked']
-MIN_EVALS = {'quick': 15000, 'thorough': 150000}
+MIN_EVALS = {"quick": 100000, "thorough": 1000000}
 ASSUMPTIONS = ['MSB0 mode only (which end an offset counts from under lsb0 is not stated by any property)',
                'only valid windows are generated (0 <= offset, 0 <= length, offset+length <= 8*size); '
                'invalid windows belong to C15',
@@ -926,7 +926,7 @@ def run(ctx):
                         ctx.run_case(judge, c)
         ctx.exhaustive['length residues 0..7 at every pool magnitude x {4 classes, Array}'] = True
         # 2. random cases
-        nrand = ctx.scale(150000, 1600000)
+        nrand = ctx.scale(100000, 1600000)
         for j in range(nrand):
             r = ctx.rng.random()
             if r < 0.30:
